@@ -380,6 +380,16 @@ where
                         id,
                         payload: request,
                     } => {
+                        if *this.protocol == Protocols::GraphQLWS
+                            && this.streams.contains_key(&id)
+                        {
+                            *this.close = true;
+                            return Poll::Ready(Some(WsMessage::Close(
+                                4409,
+                                format!("Subscriber for {} already exists", id),
+                            )));
+                        }
+
                         if let Some(data) = this.data.clone() {
                             this.streams.insert(
                                 id,
